@@ -12,10 +12,11 @@ import ast
 
 from dataclasses import replace
 
-from ..cfg import CFG
+from ..cfg import CFG, forward
 from ..kinds import has_call, reach
 from ..model import AnalysisError, unparse
 from ..report import RuleResult
+from ._c07_flow import MaskedCells
 from ._c07_util import (KEEP_ORDER, KEEP_SET, call_arg, dependence_leaves, derived_names, desugar_setattr, enclosing_ifs, falls_off, fname, is_setattr,
                         literal_resolver, name_defs, reach3, real_defs, tv3, unfold_filtered_loops, unfold_generator_loops, unknown_leaves, xp, xt)
 
@@ -449,12 +450,16 @@ def _mask_decisions(fn, mask):
     node = fn.node
     is_mask = lambda e: xt(e, node) == mask  # noqa: E731
 
+    def by_mask(e):
+        # written through the mask or its complement: X[mask] = kept values / X[~mask] = no-data
+        return any(isinstance(n, ast.Name) and n.id == mask for n in ast.walk(xp(e, node)))
+
     def fills(stmts):
         for s in stmts:
             for x in ast.walk(s):
-                if isinstance(x, ast.Subscript) and isinstance(x.ctx, ast.Store) and is_mask(x.slice):
+                if isinstance(x, ast.Subscript) and isinstance(x.ctx, ast.Store) and by_mask(x.slice):
                     return True
-                if isinstance(x, ast.Call) and fname(x) in ("np.where", "numpy.where", "np.putmask", "np.place") and any(is_mask(a) for a in x.args[:2]):
+                if isinstance(x, ast.Call) and fname(x) in ("np.where", "numpy.where", "np.putmask", "np.place") and any(by_mask(a) for a in x.args[:2]):
                     return True
         return False
 
@@ -515,4 +520,145 @@ def rule_count(ctx) -> RuleResult:
     return res
 
 
-RULES = [rule_pair, rule_order, rule_len, rule_maskonly, rule_count]
+VIEWS = {"np.asarray", "np.asanyarray", "np.ravel", "np.reshape", "np.atleast_1d", "np.atleast_2d", "np.squeeze", "np.transpose", "np.flip"}
+VIEW_METHODS = {"ravel", "reshape", "view", "squeeze", "transpose", "swapaxes"}
+INPLACE_CALLS = {"np.put", "np.place", "np.putmask", "np.copyto", "np.put_along_axis"}
+INPLACE_METHODS = {"fill", "sort", "put", "itemset", "resize", "partition", "setfield"}
+GEOMETRY_AND_VALUES = ("values", "vertices", "cells")
+
+
+def rule_fresh(ctx) -> RuleResult:
+    res = RuleResult(
+        "C07.FRESH",
+        "C07",
+        "a `copy` of a data / points / cell object never writes into the source's own arrays: every array it stores into "
+        "element-wise (X[...] = v, X op= v, X.fill(v), np.put(X, ...)) is fresh (an arithmetic result, np.ones_like / np.full, "
+        "a .copy(), a boolean / fancy selection) and not self.values / self.vertices / self.cells or a view of them "
+        "(a local bound to them, np.asarray / ravel / reshape / a basic slice of them): the source keeps the values it had",
+        floor=2,
+    )
+    p = ctx.p
+    seen = set()
+    for base in ("Data", "Points"):
+        for K in p.subclasses(p.cls(base)):
+            fn0 = K.methods.get("copy")
+            if fn0 is None or id(fn0.node) in seen:
+                continue
+            seen.add(id(fn0.node))
+            fn = ctx.view(fn0)
+
+            def source(e, st, depth=0):
+                """the attribute of self the value of e may share memory with (st: the (local, attribute) pairs that may hold here), else None"""
+                if depth > 6:
+                    return None
+                if isinstance(e, ast.Attribute) and unparse(e.value) == "self" and e.attr.lstrip("_") in GEOMETRY_AND_VALUES:
+                    return e.attr.lstrip("_")
+                if isinstance(e, ast.Name):
+                    return next((a for nm, a in sorted(st) if nm == e.id), None)
+                if isinstance(e, ast.IfExp):
+                    return source(e.body, st, depth + 1) or source(e.orelse, st, depth + 1)
+                if isinstance(e, ast.Call):
+                    if fname(e) == "getattr" and len(e.args) >= 2 and unparse(e.args[0]) == "self" and isinstance(e.args[1], ast.Constant) \
+                            and str(e.args[1].value).lstrip("_") in GEOMETRY_AND_VALUES:
+                        return str(e.args[1].value).lstrip("_")
+                    if fname(e) in VIEWS and e.args:
+                        return source(e.args[0], st, depth + 1)
+                    if isinstance(e.func, ast.Attribute) and e.func.attr in VIEW_METHODS:
+                        return source(e.func.value, st, depth + 1)
+                    return None
+                if isinstance(e, ast.Attribute) and e.attr == "T":
+                    return source(e.value, st, depth + 1)
+                if isinstance(e, ast.Subscript):
+                    parts = e.slice.elts if isinstance(e.slice, ast.Tuple) else [e.slice]
+                    basic = all(isinstance(x, ast.Slice) or (isinstance(x, ast.Constant) and (x.value is Ellipsis or x.value is None or isinstance(x.value, int))) for x in parts)
+                    return source(e.value, st, depth + 1) if basic else None
+                return None
+
+            def transfer(cn, st):
+                # which locals may share memory with an array of the source after this statement (reaching bindings)
+                if cn.kind == "fornext":
+                    names = {x.id for x in ast.walk(cn.ast) if isinstance(x, ast.Name)}
+                    return frozenset(x for x in st if x[0] not in names)
+                if cn.kind != "stmt" or not isinstance(cn.ast, (ast.Assign, ast.AnnAssign)) or cn.ast.value is None:
+                    return st
+                out = st
+                for t in (cn.ast.targets if isinstance(cn.ast, ast.Assign) else [cn.ast.target]):
+                    for x in ast.walk(t):
+                        if isinstance(x, ast.Name) and isinstance(x.ctx, ast.Store):
+                            out = frozenset(y for y in out if y[0] != x.id)
+                    if isinstance(t, ast.Name):
+                        src = source(cn.ast.value, st)
+                        if src:
+                            out = out | {(t.id, src)}
+                return out
+
+            g = CFG(fn.node)
+            IN = forward(g, frozenset(), transfer, lambda a, b: a | b)
+            bad = []
+            for cn, n in [(cn, n) for cn in g.nodes if cn in IN and cn.ast is not None and not isinstance(cn.ast, list) and cn.kind != "with"
+                          for n in ([cn.ast] if cn.kind == "stmt" and isinstance(cn.ast, (ast.Assign, ast.AnnAssign, ast.AugAssign)) else []) + [
+                              c for c in ast.walk(cn.ast) if isinstance(c, ast.Call)]]:
+                tgt = None
+                if isinstance(n, (ast.Assign, ast.AnnAssign)):
+                    for t in (n.targets if isinstance(n, ast.Assign) else [n.target]):
+                        if isinstance(t, ast.Subscript):
+                            tgt = tgt or t.value
+                elif isinstance(n, ast.AugAssign):
+                    # `x op= v` on a local holding an array updates the array in place
+                    tgt = n.target.value if isinstance(n.target, ast.Subscript) else (n.target if isinstance(n.target, ast.Name) else None)
+                elif isinstance(n, ast.Call):
+                    if fname(n) in INPLACE_CALLS and n.args:
+                        tgt = n.args[0]
+                    elif isinstance(n.func, ast.Attribute) and n.func.attr in INPLACE_METHODS:
+                        tgt = n.func.value
+                if tgt is not None:
+                    src = source(tgt, IN[cn])
+                    if src:
+                        bad.append((n, src))
+            res.inst(f"{fn.qualname}: element-wise writes into arrays shared with the source: {len(bad)}", nontrivial=True, ok=not bad)
+            for n, src in bad[:1]:
+                res.find(fn.cls.name, "copy", f"copy writes element-wise into the source's own `{src}` array", f"{fn.module.relpath}:{n.lineno}",
+                         f"the array written into is self.{src} itself (or a view of it), not a fresh one: after the copy the SOURCE reads the "
+                         f"modified entries, and any later write of the source from its cache persists them")
+    return res
+
+
+def rule_renum(ctx) -> RuleResult:
+    res = RuleResult(
+        "C07.RENUM",
+        "C07",
+        "in the masked copy of a cell object (a `copy` of a CellObject class that hands over `self.vertices[mask]`), every path of a "
+        "copy with a vertex mask of an object that has cells reaches the parent copy with `cells` in the keyword arguments, and "
+        "those cells were looked up through the table written through the mask (old vertex index -> new one): sub-sampled "
+        "vertices never travel with cells in the old numbering",
+        floor=1,
+    )
+    p = ctx.p
+    base = p.cls("CellObject")
+    for K in p.subclasses(base):
+        fn0 = K.methods.get("copy")
+        if fn0 is None or "mask" not in fn0.params + [a.arg for a in fn0.node.args.kwonlyargs]:
+            continue
+        fn = ctx.view(fn0)
+        mc = MaskedCells(fn, p)
+        if not mc.subsamples_vertices():
+            if K is base:
+                raise AnalysisError("CellObject.copy: the hand-over of the vertices selected by the mask was not found")
+            continue
+        sites = mc.run()
+        if not sites:
+            raise AnalysisError(f"{K.name}.copy: no hand-over of the keyword arguments (f(..., **kwargs)) reached by a masked copy")
+        for call, line, ok in sites:
+            res.inst(f"{K.name}.copy:{line} {unparse(call.func)}(..., **{mc.kwargs}) reached by a masked copy with re-indexed cells on every path",
+                     nontrivial=True, ok=ok)
+            if not ok:
+                res.find(K.name, "copy", f"masked copy can reach {unparse(call.func)} with sub-sampled vertices but without re-indexed cells",
+                         f"{fn.module.relpath}:{line}",
+                         "with a vertex mask and existing cells there is a path to the parent copy on which the keyword arguments carry the "
+                         "vertices selected by the mask but no cells re-indexed through the mask (none at all: the source cells are copied "
+                         "with the old numbering; or cells not looked up in the renumbering table): cells point at the wrong or at "
+                         "non-existing vertices of the copy")
+    return res
+
+
+RULES = [rule_pair, rule_order, rule_len, rule_maskonly, rule_count, rule_renum, rule_fresh]
